@@ -49,6 +49,10 @@ def control(ch, cfg, ns):
     if kind == 'input':
         if ch.p(0.85):
             attrs['type'] = pick_value(ch, INPUT_TYPES, hostile)
+            if ch.p(0.12) and isinstance(attrs['type'], str):
+                # type keywords are ASCII case-insensitive whatever the type (range types included)
+                v = attrs['type']
+                attrs['type'] = ch.pick((v.upper(), v.capitalize(), v.swapcase(), v[:1] + v[1:].upper()))
         t = (attrs.get('type') or '').lower()
         if t in ('radio', 'checkbox') or ch.p(0.2):
             if ch.p(0.8):
